@@ -164,11 +164,27 @@ func Compile(script []byte, opts CompilerOptions) (*Bytecode, error) {
 	return compileScript(script, &opts, nil)
 }
 
+// compilerBailout is the panic value used to abort the compilation from deep
+// inside the emitter; it is recovered by compileScript and returned as error.
+type compilerBailout struct {
+	err error
+}
+
 func compileScript(
 	script []byte,
 	opts *CompilerOptions,
 	modStore *moduleStore,
-) (*Bytecode, error) {
+) (bc *Bytecode, err error) {
+
+	defer func() {
+		if r := recover(); r != nil {
+			bailout, ok := r.(compilerBailout)
+			if !ok {
+				panic(r)
+			}
+			bc, err = nil, bailout.err
+		}
+	}()
 
 	fileSet := parser.NewFileSet()
 	moduleName := opts.ModulePath
@@ -200,7 +216,7 @@ func compileScript(
 		return nil, err
 	}
 
-	bc := compiler.Bytecode()
+	bc = compiler.Bytecode()
 	if bc.Main.NumLocals > maxNumLocals {
 		return nil, ErrSymbolLimit
 	}
@@ -457,7 +473,7 @@ func (c *Compiler) changeOperand(opPos int, operand ...int) {
 	inst := make([]byte, 0, 8)
 	inst, err := MakeInstruction(inst, op, operand...)
 	if err != nil {
-		panic(err)
+		panic(compilerBailout{err: err})
 	}
 	c.replaceInstruction(opPos, inst)
 }
@@ -542,7 +558,9 @@ func (c *Compiler) emit(node parser.Node, opcode Opcode, operands ...int) int {
 	inst := make([]byte, 0, 8)
 	inst, err := MakeInstruction(inst, opcode, operands...)
 	if err != nil {
-		panic(err)
+		// an operand does not fit the instruction format (too many locals,
+		// arguments, elements, constants...): stop compiling with an error.
+		panic(compilerBailout{err: c.error(node, err)})
 	}
 
 	pos := c.addInstruction(inst)
